@@ -3,7 +3,10 @@
 // Monitor A (this file): real client <-> recording relay <-> real server over the matrix
 // carrier x server certificate x client --secure x client --insecure, with a wire observer.
 // Monitor B (scripted_test.go): scripted misbehaving servers against the real client.
-// Monitor C (tlsend_test.go): TLS endpoints against plaintext peers.
+// Monitor C (tlsend_test.go): TLS endpoints (with and without a key pair) against plaintext peers.
+// Monitor D (reconnect_test.go): the security level of an upstream survives the loss of its session.
+// Monitor E (listeners_test.go): compositions of the client's listener list (stdio and socket listeners
+// in every order, applications connecting while the client is still starting).
 package c04
 
 import (
@@ -28,7 +31,7 @@ import (
 
 // caseDesc is the replayable descriptor of every case of the three monitors.
 type caseDesc struct {
-	Monitor string `json:"monitor"` // "A", "B", "C"
+	Monitor string `json:"monitor"` // "A", "B", "C", "D", "E"
 	Seed    int64  `json:"seed"`
 	// A and C
 	Carrier string `json:"carrier,omitempty"`
@@ -43,6 +46,12 @@ type caseDesc struct {
 	Script    *script `json:"script,omitempty"`
 	// C
 	Peer string `json:"peer,omitempty"` // scripted-plaintext-client, real-client-plain-scheme
+	// E: the client's listener list in configuration order (stdio, unix, tcp, tcp-localhost), whether the
+	// applications of the unix listeners try to connect from before the client is started, and how many
+	// fresh client starts the case makes (the outcome may depend on the interleaving of the start-up)
+	Listeners []string `json:"client_listeners,omitempty"`
+	Eager     bool     `json:"applications_connect_during_startup,omitempty"`
+	Rounds    int      `json:"client_starts,omitempty"`
 }
 
 func (c *caseDesc) key() string {
@@ -50,7 +59,11 @@ func (c *caseDesc) key() string {
 	if c.Script != nil {
 		s = c.Script.name()
 	}
-	return fmt.Sprintf("%s/%s/%s/%v/%v/%v/%s/%s/%s/%s", c.Monitor, c.Carrier, c.Cert, c.NoCA, c.Require, c.Insecure, c.Transport, s, c.Peer, c.UpSch)
+	k := fmt.Sprintf("%s/%s/%s/%v/%v/%v/%s/%s/%s/%s", c.Monitor, c.Carrier, c.Cert, c.NoCA, c.Require, c.Insecure, c.Transport, s, c.Peer, c.UpSch)
+	if len(c.Listeners) > 0 {
+		k += fmt.Sprintf("/%s/%v/%d", strings.Join(c.Listeners, ","), c.Eager, c.Rounds)
+	}
+	return k
 }
 
 func certOf(name string) *e2e.CertPair {
@@ -632,6 +645,8 @@ func TestVerifC04(t *testing.T) {
 			runC(rec, &c)
 		case "D":
 			runD(rec, &c)
+		case "E":
+			runE(rec, &c)
 		}
 		return
 	}
@@ -657,6 +672,15 @@ func TestVerifC04(t *testing.T) {
 	}
 	if want("C") {
 		for _, c := range cCases(rec) {
+			if slowC(c) {
+				// on the unchanged tree these cost one stall window each: they go to the shards of the DNS
+				// cases, which run one case at a time anyway
+				if mine(rec, true, dnsIdx) {
+					runC(rec, c)
+				}
+				dnsIdx++
+				continue
+			}
 			if mine(rec, false, idx) {
 				runC(rec, c)
 			}
@@ -675,6 +699,14 @@ func TestVerifC04(t *testing.T) {
 		for _, c := range bCases(rec) {
 			if mine(rec, false, idx) {
 				runB(rec, c)
+			}
+			idx++
+		}
+	}
+	if want("E") {
+		for _, c := range eCases(rec) {
+			if mine(rec, false, idx) {
+				runE(rec, c)
 			}
 			idx++
 		}
